@@ -1095,6 +1095,25 @@ def poison_oracle(seed, n_tables):
             if same_structure and not _same_val(a['sample'], b['sample']):
                 bad.append((f'F8:uninitialised-memory:sample:{vt}', f'VineCopula({vt}).sample on {label} depends on the fill although the structure does not',
                             {'table': label, 'vine_type': vt}))
+            # TRUNCATED vines (fewer trees than n_var - 1; one or two trees are free of the F8 reads on the pristine tree): every buffer that
+            # is summed or returned must have been written for the trees that exist - keys of their own, never matched by the F8 entries
+            for t in ([1] if d == 3 else [1, 2]):
+                n += 1
+                try:
+                    a = vine_under_poison(vt, table, float('nan'), t)
+                    b = vine_under_poison(vt, table, 0.123, t)
+                except Exception as ex:
+                    bad.append((f'poison:vine-raises:{vt}:truncated{t}:{type(ex).__name__}', f'VineCopula({vt}).fit(truncated={t}) on {label} raised {type(ex).__name__}: {ex}',
+                                {'table': label}))
+                    continue
+                for field in ('trees', 'likelihood', 'sample'):
+                    same = (_same_val(a[field], b[field]) if field != 'trees' else
+                            [[(e['L'], e['R'], e['D'], e['name']) for e in tr] for tr in a['trees']] == [[(e['L'], e['R'], e['D'], e['name']) for e in tr] for tr in b['trees']]
+                            and all(L.same(x['tau'], y['tau']) and L.same(x['theta'], y['theta']) for ta, tb in zip(a['trees'], b['trees']) for x, y in zip(ta, tb)))
+                    if not same:
+                        bad.append((f'uninitialised-memory:truncated{t}:{field}:{vt}',
+                                    f'VineCopula({vt}).fit(truncated={t}) on {label} ({d} columns): {field} depends on the contents of np.empty buffers: '
+                                    f'{str(a[field])[:120]} (NaN fill) vs {str(b[field])[:120]} (0.123 fill)', {'table': label, 'vine_type': vt, 'truncated': t}))
     for b in bad:
         b[2].setdefault('repro', _replay(f'P.poison_oracle({seed}, {n_tables})[0]', b[0]))
     return bad, n
